@@ -452,7 +452,7 @@ def solve_stages(stages, rlimit, timeout_ms, use_cvc5, cex_terms, deadline=None,
 
     z3_round(0.05)
     if verdict == "unknown":
-        z3_round(0.2)  # many array/quantifier obligations need a little more than the first slice; cheaper than a cvc5 start
+        z3_round(0.3)  # many array/quantifier obligations need a little more than the first slice; cheaper than a cvc5 start
     if fast and verdict == "unknown":
         # first pass over all sub-goals of an obligation: whatever is still open is rescheduled on its own with the full budget
         return {"verdict": "open", "backend": "", "model": None, "detail": detail, "secs": round(time.time() - t0, 3), "second": None}
